@@ -143,3 +143,47 @@ func verifLemma_C07_four_then_delete(a, b, c, d, k int) {
 	t.DeleteKey(k)
 	verifHelper_C07_inorder(t, 3)
 }
+
+// ---- C06: union (bounded shapes) -----------------------------------------------------------
+// Three posting lists with concrete values, merged by the real union iterator over the
+// real array iterators and the standard library's container/heap (executed as loaded).
+// The merged stream is strictly increasing, contains every value of every list once, and
+// Advance lands on the first value at or after the key; a value present in two lists is
+// returned once, and Next after an Advance onto such a value moves every list past it.
+func verifHelper_C06_three_lists() Iterator {
+	vs := vIntValues{}
+	a := &arrayIndexIterator{i: -1, list: []Value{1, 5, 9}, values: vs}
+	b := &arrayIndexIterator{i: -1, list: []Value{2, 5, 7}, values: vs}
+	c := &arrayIndexIterator{i: -1, list: []Value{3, 6, 7}, values: vs}
+	return NewUnion([]Iterator{a, b, c}, vs)
+}
+
+func verifLemma_C06_union_next() {
+	u := verifHelper_C06_three_lists()
+	verifrt.Assert(u.Next() && u.Value().(int) == 1, "first")
+	verifrt.Assert(u.Next() && u.Value().(int) == 2, "second")
+	verifrt.Assert(u.Next() && u.Value().(int) == 3, "third")
+	verifrt.Assert(u.Next() && u.Value().(int) == 5, "fourth")
+	verifrt.Assert(u.Next() && u.Value().(int) == 6, "duplicate-returned-once")
+	verifrt.Assert(u.Next() && u.Value().(int) == 7, "sixth")
+	verifrt.Assert(u.Next() && u.Value().(int) == 9, "seventh")
+	verifrt.Assert(!u.Next(), "exhausted")
+}
+
+func verifLemma_C06_union_advance_then_next() {
+	u := verifHelper_C06_three_lists()
+	verifrt.Assert(u.Next() && u.Value().(int) == 1, "first")
+	verifrt.Assert(u.Advance(5) && u.Value().(int) == 5, "advance-onto-a-value-in-two-lists")
+	verifrt.Assert(u.Next() && u.Value().(int) == 6, "next-after-advance-is-larger")
+	verifrt.Assert(u.Advance(8) && u.Value().(int) == 9, "advance-between-values")
+	verifrt.Assert(!u.Advance(10), "advance-past-the-end")
+}
+
+func verifLemma_C06_union_advance_first() {
+	u := verifHelper_C06_three_lists()
+	verifrt.Assert(u.Advance(4) && u.Value().(int) == 5, "advance-before-next")
+	verifrt.Assert(u.Next() && u.Value().(int) == 6, "then-next")
+	verifrt.Assert(u.Advance(7) && u.Value().(int) == 7, "advance-onto-a-duplicate")
+	verifrt.Assert(u.Next() && u.Value().(int) == 9, "then-next-again")
+	verifrt.Assert(!u.Next(), "exhausted")
+}
